@@ -46,7 +46,7 @@ type Query {
   named: [Named]
   owned: [Owned!]
   people: [Person!]!
-  echo(s: String = "d", f: Filter, id: ID, any: Any): String
+  echo(s: String = "d", f: Filter, id: ID, any: Any, func: String, fn: String, args: String, kwargs: String, self: String, cls: String, callback: String, value: String): String
   count: Int!
   color(c: Color = RED): Color
   need(n: Int! = 1): Int!
@@ -187,7 +187,7 @@ class ParkingExecutor:
         self.eager = set(eager)      # submission indices completed at submit time (a worker that finishes at once)
         self.count = 0
 
-    def submit(self, fn, *args, **kwargs):
+    def submit(self, fn, /, *args, **kwargs):          # (positional-only like concurrent.futures.Executor.submit)
         f = Future()
         idx = self.count
         self.count += 1
@@ -283,6 +283,7 @@ def run_request_unguarded(schema, query, variables, world, config, schedule=None
             fut = process_graphql_query(schema, query, executor_cls=Executor, runtime=rt, **kw)
             steps = 0
             while pe.parked and steps < 10000:
+                out["max_parked"] = max(out.get("max_parked", 0), len(pe.parked))
                 pe.run(schedule.pick(len(pe.parked)))
                 steps += 1
             out["tasks"] = pe.count
@@ -306,6 +307,7 @@ def run_request_unguarded(schema, query, variables, world, config, schedule=None
                         if task.done():
                             break
                         if ctx.gates:
+                            out["max_parked"] = max(out.get("max_parked", 0), len(ctx.gates))
                             path, gate = ctx.gates.pop(schedule.pick(len(ctx.gates)))
                             gate.set_result(None)
                             steps += 1
@@ -325,6 +327,14 @@ def run_request_unguarded(schema, query, variables, world, config, schedule=None
             finally:
                 asyncio.set_event_loop(None)
                 loop.close()
+        elif config == "executor-threadpool-real":
+            # the thread-pool runtime as shipped: a real concurrent.futures.ThreadPoolExecutor (order-free facts only, like the offload configuration)
+            rt = ThreadPoolRuntime(max_workers=3)
+            try:
+                fut = process_graphql_query(schema, query, executor_cls=Executor, runtime=rt, **kw)
+                res = fut.result(timeout=30) if hasattr(fut, "result") else fut
+            finally:
+                rt._inner.shutdown(wait=False)
         elif config == "executor-asyncio-offload":
             # the runtime's default mode: plain (non-coroutine) resolvers are wrapped and run in worker threads of the loop's default executor.
             # Real threads: completion order is whatever it is, so only order-free facts (outcome, data, errors, invocation multiset) may be compared.
@@ -499,6 +509,11 @@ def worlds_for(schema, query, variables, operation_name=None, with_boom=False, l
     if len(leaves) >= 2:
         fixed.append(("shared-error@%s+%s" % (leaves[0], leaves[-1]), {leaves[0]: ("shared-error", "S1"), leaves[-1]: ("shared-error", "S1")}))
         fixed.append(("shared-error@%s+%s" % (leaves[0], leaves[1]), {leaves[0]: ("shared-error", "S2"), leaves[1]: ("shared-error", "S2")}))
+    # the same message at two items of one list (one field node, one location, two paths): two errors
+    twins = [(p, q) for p in leaves for q in leaves if p < q and len(p) == len(q) and sum(a != b for a, b in zip(p, q)) == 1
+             and all(isinstance(a, int) and isinstance(b, int) for a, b in zip(p, q) if a != b)]
+    if twins:
+        fixed.append(("same-error-on-items@%s+%s" % twins[0], {twins[0][0]: ("error", "E-same", None), twins[0][1]: ("error", "E-same", None)}))
     if leaves:
         fixed.append(("error-foreign-path@%s" % (leaves[-1],), {leaves[-1]: ("error", "E-foreign-path", None)}))
         fixed.append(("error-custom-init@%s" % (leaves[0],), {leaves[0]: ("error", "E-custom-init", None)}))
